@@ -185,6 +185,12 @@ func (r *Report) Finish(verifDir string, meta Meta, seed int64, cmd string) int 
 	if meta.NotDecided != "" {
 		expl += " NOT DECIDED by this check: " + meta.NotDecided
 	}
+	if meta.Assumptions == nil {
+		meta.Assumptions = []string{"the loaded packages are the ones the build compiles (no library file is excluded by build constraints: checked)"}
+	}
+	if meta.Trusted == nil {
+		meta.Trusted = []string{}
+	}
 	npk, nfn := 0, 0
 	if r.Prog != nil {
 		npk, nfn = len(r.Prog.Pkgs), len(r.Prog.Fns)
